@@ -631,7 +631,7 @@ func c10One(c *Ctx, pki *PKI, srvs map[string]*Srv, cs c10Case, r *Rand, idx int
 	}
 	cl, err := dialRaw(srv.Addr, ctc)
 	if err != nil {
-		c.Inconclusive("dial: " + err.Error())
+		c.Skip(fmt.Sprintf("pipelines: the harness could not connect (%v): %v", cs, err))
 		return
 	}
 	defer cl.Close()
